@@ -346,7 +346,7 @@ def bad_eigh(A):
 def good(self, p_x, W):
     return lax.stop_gradient(self._get_omega_star(p_x=p_x, W_i=W))
 '''
-_SPECTRAL = ("eigh", "eig", "eigvalsh", "eigvals", "svd")
+_SPECTRAL = ("eigh", "eig", "eigvalsh", "eigvals", "svd", "norm")      # norm: d/dx |x| is NaN at x = 0 (e.g. equal means)
 
 
 def _gradient_flow_violations(tree, relpath, qual, variational):
@@ -367,7 +367,8 @@ def _gradient_flow_violations(tree, relpath, qual, variational):
                            f"parameter ({', '.join(sorted(variational))}): derivatives with respect to the parameters it depends on lose that term")
         if isinstance(n.func, ast.Attribute) and n.func.attr in _SPECTRAL and "linalg" in fname:
             out.append(f"{relpath}:{n.lineno} in {qual(n.lineno)}: `{fname}` has NaN reverse-mode derivatives at repeated eigenvalues / singular values "
-                       "(e.g. isotropic covariances); matrix inverses and log-determinants go through Cholesky factors")
+                       "(e.g. isotropic covariances) resp. at the zero vector (norm); matrix inverses and log-determinants go through Cholesky factors, "
+                       "quadratic forms are written as contractions")
     return out, sites
 
 
